@@ -38,13 +38,13 @@ def UF(name, n=1):
 def rationalize(x: float) -> Fraction:
     """Exact rational value of a float -- except when the float is precisely the double nearest to a small rational
     (1.0000000000e-01 -> 1/10, 0.3333333333333333 -> 1/3, chain rates n/d): then that rational, which is what the
-    compiler meant.  The round trip float(p/q) == x makes the snap exact, never approximate."""
+    compiler meant.  Tolerance: 4 ulp (linspace / n*dt products are a few ulp off the nearest double)."""
     x = float(x)
     fr = Fraction(x)
     if fr.denominator <= 4096:
         return fr
     ap = fr.limit_denominator(4096)
-    if ap != 0 and float(ap) == x:
+    if ap != 0 and abs(float(ap) - x) <= 4 * math.ulp(x):
         return ap
     return fr
 
